@@ -41,6 +41,8 @@ type shardOut struct {
 	Viols      []violRec      `json:"viols"`    // first few per signature, full text
 	ViolKeys   [][2]string    `json:"violkeys"` // (sig, key) of every violating case
 	Samples    []string       `json:"samples"`
+	KeyIdx     []int          `json:"keyidx,omitempty"`
+	KeyVal     []string       `json:"keyval,omitempty"`
 	Done       bool           `json:"done"`
 }
 
@@ -66,6 +68,10 @@ func (o *shardOut) add(sp *Space, i int, r Result) {
 	}
 	for k, v := range r.Extra {
 		o.Extra[k] += v
+	}
+	if r.Key != "" {
+		o.KeyIdx = append(o.KeyIdx, i)
+		o.KeyVal = append(o.KeyVal, r.Key)
 	}
 	if r.Viol != nil {
 		text := sp.Text(i)
@@ -109,6 +115,9 @@ func WorkerMain(args []string) int {
 		if s.Name == spName {
 			sp = s
 		}
+	}
+	if sp == nil && chk.Dyn != nil {
+		sp = chk.Dyn(tier, spName)
 	}
 	if sp == nil {
 		fmt.Fprintln(os.Stderr, "unknown space", spName)
@@ -173,6 +182,7 @@ type runState struct {
 	agg      map[string]*shardOut       // per space
 	deadline time.Time
 	capped   bool
+	keys     map[string]map[int]string // per space: case index -> state key
 }
 
 func selfExe() string {
@@ -411,6 +421,17 @@ func (rs *runState) merge(sp *Space, o *shardOut) {
 	if len(a.Samples) < 3 {
 		a.Samples = append(a.Samples, o.Samples...)
 	}
+	for i, idx := range o.KeyIdx {
+		if rs.keys == nil {
+			rs.keys = map[string]map[int]string{}
+		}
+		m := rs.keys[sp.Name]
+		if m == nil {
+			m = map[int]string{}
+			rs.keys[sp.Name] = m
+		}
+		m[idx] = o.KeyVal[i]
+	}
 	rs.viols = append(rs.viols, o.Viols...)
 	for _, sk := range o.ViolKeys {
 		m := rs.violKeys[sk[0]]
@@ -443,12 +464,14 @@ func Run(id, tier string) int {
 	rs := &runState{chk: chk, tier: tier, violKeys: map[string]map[string]bool{}, agg: map[string]*shardOut{}, deadline: start.Add(budget)}
 	spaces := chk.Spaces(tier)
 	os.RemoveAll(filepath.Join(ReplayDir(), id))
+	os.Setenv("VERIF_RUN_ID", strconv.Itoa(os.Getpid()))
+	defer os.RemoveAll(RunDir())
 	var stats []spaceStat
 	only := os.Getenv("VERIF_SPACE") // development aid: run matching spaces only
-	for _, sp := range spaces {
+	runSpace := func(sp *Space) map[int]string {
 		if only != "" && !strings.Contains(sp.Name, only) {
 			rs.capped = true
-			continue
+			return nil
 		}
 		t0 := time.Now()
 		if sp.InProc {
@@ -516,6 +539,15 @@ func Run(id, tier string) int {
 		st.Crashes = a.Extra["worker_deaths"]
 		stats = append(stats, st)
 		fmt.Printf("%s %s space=%s size=%d evaluated=%d nontrivial=%d undefined=%d outcomes=%d wall=%.1fs\n", id, tier, sp.Name, sp.Size, a.Evals, a.Nontrivial, a.Skipped, len(a.Outcomes), time.Since(t0).Seconds())
+		keys := rs.keys[sp.Name]
+		delete(rs.keys, sp.Name)
+		return keys
+	}
+	for _, sp := range spaces {
+		runSpace(sp)
+	}
+	if chk.Driver != nil {
+		chk.Driver(tier, runSpace)
 	}
 	return rs.finish(stats, start, seed)
 }
